@@ -249,6 +249,10 @@ static RE_STRING: LazyLock<Regex> = LazyLock::new(|| Regex::new(r#"^\"(\\.|[^"\\
 
 const MAGIC: &str = "%grmtools";
 
+/// The maximum depth to which arrays in a setting can be nested. The parser recurses once per
+/// nesting level, so without a limit a long enough run of `[` overflows the stack.
+const MAX_SETTING_DEPTH: usize = 64;
+
 fn add_duplicate_occurrence<T: Eq + PartialEq + Clone>(
     errs: &mut Vec<HeaderError<T>>,
     kind: HeaderErrorKind,
@@ -271,7 +275,16 @@ fn add_duplicate_occurrence<T: Eq + PartialEq + Clone>(
 }
 
 impl<'input> GrmtoolsSectionParser<'input> {
-    fn parse_setting(&'_ self, mut i: usize) -> Result<(Setting<Span>, usize), HeaderError<Span>> {
+    fn parse_setting(&'_ self, i: usize) -> Result<(Setting<Span>, usize), HeaderError<Span>> {
+        self.parse_setting_at_depth(i, 0)
+    }
+
+    /// Parse a setting which is nested inside `depth` arrays.
+    fn parse_setting_at_depth(
+        &'_ self,
+        mut i: usize,
+        depth: usize,
+    ) -> Result<(Setting<Span>, usize), HeaderError<Span>> {
         i = self.parse_ws(i);
         match RE_DIGITS.find(&self.src[i..]) {
             Some(m) => {
@@ -308,6 +321,15 @@ impl<'input> GrmtoolsSectionParser<'input> {
                 }
                 None => {
                     if let Some(mut j) = self.lookahead_is("[", i) {
+                        if depth >= MAX_SETTING_DEPTH {
+                            return Err(HeaderError {
+                                kind: HeaderErrorKind::UnexpectedToken(
+                                    '[',
+                                    "arrays are nested too deeply.",
+                                ),
+                                locations: vec![Span::new(i, j)],
+                            });
+                        }
                         let mut vals = Vec::new();
                         let open_pos = j;
 
@@ -323,7 +345,7 @@ impl<'input> GrmtoolsSectionParser<'input> {
                                     end_pos,
                                 ));
                             }
-                            match self.parse_setting(j) {
+                            match self.parse_setting_at_depth(j, depth + 1) {
                                 Ok((val, k)) => {
                                     vals.push(val);
                                     j = self.parse_ws(k);
